@@ -79,8 +79,12 @@ ScanErr(e) == e.lerr \/ e.cerr
 
 \* Refresh returned from RStart: a load failure, or (a repaired File that publishes nothing after a failed scan)
 \* the silent steps below followed by RJoin
+\* a File that serialises its refreshes makes the second one wait: it has not started
+TraceRStartBlocked ==
+    /\ Consume("RStart") /\ E.res = "blocked" /\ Busy # {} /\ rf[E.r].pc = "idle" /\ UNCHANGED vars
+    /\ ChgOK /\ ObsLight(E.obs) /\ ObsMaps(E.obs) /\ Mark
 TraceRStart ==
-    /\ Consume("RStart") /\ RStart(E.r)
+    /\ Consume("RStart") /\ E.res # "blocked" /\ RStart(E.r)
     /\ IF E.res = "gated"
        THEN Why(rf'[E.r].pc = "built", <<"Refresh must fail while reading", lastr'.err>>)
        ELSE /\ ~ScanErr(E)
@@ -173,7 +177,7 @@ TraceCEnd == Consume("CEnd") /\ UNCHANGED vars /\ Mark
 TraceProbe == Consume("Probe") /\ UNCHANGED vars /\ Mark
 
 TraceNext == \/ TraceCRead \/ TraceCSubnet \/ TraceCEnd \/ TraceProbe
-             \/ TraceReset \/ TraceEnd \/ TracePut \/ TraceRStart \/ SilentRStart \/ SilentSwap \/ SilentJoin
+             \/ TraceReset \/ TraceEnd \/ TracePut \/ TraceRStart \/ TraceRStartBlocked \/ SilentRStart \/ SilentSwap \/ SilentJoin
              \/ TraceRSwapLoc \/ TraceRSwapCtry \/ TraceRJoin \/ TraceRSwapDB \/ TraceData \/ TraceSubnet
 TraceSpec == TraceInit /\ [][TraceNext]_tvars
 
